@@ -12,6 +12,7 @@ CLAIMS = {
  'C18': ('NLSF stabiliser for any int16 input, NLSF decode, interpolation, gain dequantisation chains (inductive), pitch lag decoding and table reads decided for every index value a bitstream can carry; LPC stability itself is not claimed', '2/C18'),
  'C13': ('the three sample formats convert to bit-identical internal values for every int16, the three encoder entry points hand identical PCM/depth/downmix to the native encoder, and the three decoder exit points round/saturate one common float output as specified; the codec between them is stubbed', '2/C13'),
  'C20': ('DTX decision logic: generalised counter (inductive invariant, exact characterisation of DTX frames, run bound) and the SILK VAD/DTX machine for any activity inputs; signal-to-activity mapping is not claimed', '2/C20'),
+ 'C16': ('leaf parsers of the extension format (skip_extension, skip_extension_payload) are memory-safe and advance exactly as specified on any buffer up to 300 bytes; the iterator and generator above them could not be decided and are not claimed', '2/C16'),
  'C08': ('range coder round trips, accounting invariant (inductive) and termination lemma decided over all parameters within small buffer/sequence bounds', '2/C08'),
 }
 NA = {
